@@ -25,6 +25,7 @@ import Gama.Lemmas.StatanMono
 import Gama.Lemmas.StatanHill
 import Gama.Lemmas.StatanGenTie
 import Gama.Lemmas.StatanChiMono
+import Gama.Lemmas.StatanHillMono
 namespace Gama.Props.C17
 open Gama Gama.Statan Real
 
@@ -74,9 +75,10 @@ theorem C17_chi2_1 (fuel : ℕ) (p : ℝ) : chiSquare fuel p 1 = normal fuel (p 
     `g` is by a positive number -/
 theorem C17_finite_normal (fuel : ℕ) {α : ℝ} (h0 : 0 < α) (h1 : α < 1) :
     0 < fold α ∧ fold α ≤ 1 / 2 ∧ 0 < -2 * Real.log (fold α) ∧ 0 < normalZ0 (fold α) ∧
-      0 < normalDen (normalZ0 (fold α)) ∧ 0 < (normalDistribution fuel (normalZ1 (normalZ0 (fold α)))).2 := by
+      0 < normalDen (normalZ0 (fold α)) ∧ 0 < (normalDistribution fuel (normalZ1 (normalZ0 (fold α)))).2 ∧
+      ∀ v, 0 < (normalTail v fuel (normalZ1 (normalZ0 (fold α)))).2 := by
   obtain ⟨a, b, c, d, e⟩ := normal_defined fuel h0 h1
-  exact ⟨a, (fold_range h0 h1).2, b, c, d, e⟩
+  exact ⟨a, (fold_range h0 h1).2, b, c, d, e, fun v => normalTail_density_pos v fuel _⟩
 
 /-- no singular operation in `Student` on (0,1) — everything except the second Hill divisor (next theorem).
     u = 2·min(α, 1−α) ∈ (0,1].  N ≤ 2: sin(π/2·u) > 0, u(2−u) > 0, radicand ≥ 0.  N ≥ 3 (r = N): the prelude
@@ -183,12 +185,17 @@ theorem C17_cf_terminates {x : ℝ} (h : x < -(232 / 100) ∨ 35 / 10 < x) (fuel
   · rw [if_pos (by linarith), abs_of_neg (by linarith)]; linarith
   · rw [if_neg (by linarith), abs_of_pos (by linarith)]; linarith
 
-/-- consequence for `Normal`: when its start value lies in the continued-fraction region, every fuel ≥ 10⁵ gives the
-    same critical value -/
+/-- consequence for `Normal` (either variant: `1 − D(z)` or `D(−z)`): when its start value lies in the continued-fraction
+    region, every fuel ≥ 10⁵ gives the same critical value -/
 theorem C17_normal_fuel {α : ℝ} (hz : 35 / 10 < normalZ1 (normalZ0 (fold α))) (fuel : ℕ) (hf : 100000 ≤ fuel) :
-    normal fuel α = normal 100000 α := by
-  unfold normal
-  simp only [C17_cf_terminates (Or.inr hz) fuel hf]
+    normal fuel α = normal 100000 α ∧ ∀ d, normalWith d fuel α = normalWith d 100000 α := by
+  have key : ∀ d, normalWith d fuel α = normalWith d 100000 α := by
+    intro d
+    unfold normalWith normalTail
+    cases d
+    · simp only [C17_cf_terminates (Or.inr hz) fuel hf, Bool.false_eq_true, ↓reduceIte]
+    · simp only [C17_cf_terminates (Or.inl (by linarith : -(normalZ1 (normalZ0 (fold α))) < -(232 / 100))) fuel hf, ↓reduceIte]
+  exact ⟨key _, key⟩
 
 /-- **which tail is computed** in the continued-fraction region (fuel ≥ 1): for `x < −2.32` the lower tail itself,
     `0 < D < φ(x)/|x|`; for `x > 3.5` one minus the upper tail, `1 − φ(x)/x < D < 1`.  In particular the special
@@ -431,5 +438,41 @@ example : (0 : ℝ) ≤ 1 / 7 ∧ (1 / 7 : ℝ) ≤ 1 / 3 ∧ |(-1 : ℝ)| ≤ 7
   refine ⟨by norm_num, by norm_num, ?_, ?_, by norm_num⟩
   · rw [abs_of_neg (by norm_num)]; norm_num
   · rw [abs_of_pos (by norm_num)]; norm_num
+
+/-! ## Round 9: `Student`, N ≥ 3 — the tail branch of Hill's algorithm is strictly monotone
+
+`Student` for N ≥ 3 has two branches, selected by `y = (d·2α)^(2/N)` against `a + 0.05`.  The tail branch (`y ≤ a + 0.05`)
+is a closed form in α: proved strictly decreasing below, 3 ≤ N ≤ 10000 (the range of `C17_finite_student_hill2_partial`).
+For N = 3 it is the branch of every α ≤ 1/24 (the 95 % and 99 % levels).  RESIDUE: the other branch goes through
+`x = −Normal(α)` (monotone only as far as `Normal` is) and a rational function of x with the parameters (N, x) — not proved;
+the junction `y = a + 0.05` between the two branches — not proved (oracle). -/
+
+/-- **Hill's tail-branch radicand is strictly decreasing in y** on (0, a + 0.05], 3 ≤ r ≤ 10000, any `d` with
+    `0 < d`, `d² ≤ 1.9 r` (what `hillABCD` gives) -/
+theorem C17_hill_tail_radicand_anti {r d y1 y2 : ℝ} (hr : 3 ≤ r) (hr' : r ≤ 10000) (hd0 : 0 < d)
+    (hd : d ^ 2 ≤ 19 / 10 * r) (h1 : 0 < y1) (h12 : y1 < y2) (h2 : y2 ≤ 1 / (r - 1 / 2) + 1 / 20) :
+    hillY2 r d y2 < hillY2 r d y1 := hillY2_strictAnti hr hr' hd0 hd h1 h12 h2
+
+/-- **Student, 3 ≤ N ≤ 10000, tail branch, on the regenerated function**: for `0 < α < β < ½` with β (hence α) in the
+    tail branch, `Student(β, N) < Student(α, N)` and `0 < Student(β, N)`; by antisymmetry the mirrored statement holds above ½ -/
+theorem C17_student_mono_hill_tail (fuel : ℕ) {N : ℤ} (hN : 3 ≤ N) (hN' : N ≤ 10000) {α β : ℝ} (h0 : 0 < α) (hab : α < β)
+    (hb : β < 1 / 2) (hbr : ¬ ((hillABCD (Scalar.ofInt N : ℝ)).1 + 1 / 20 < hillY N (β * 2))) :
+    Gen.Statan.Student fuel β N < Gen.Statan.Student fuel α N ∧ 0 < Gen.Statan.Student fuel β N ∧
+      Gen.Statan.Student fuel (1 - α) N < Gen.Statan.Student fuel (1 - β) N := by
+  simp only [← student_eq_gen]
+  obtain ⟨h1, h2⟩ := student_hill_tail_strictAnti fuel hN hN' h0 hab hb hbr
+  refine ⟨h1, h2, ?_⟩
+  rw [student_antisym fuel N (by intro e; linarith : α ≠ 1 / 2), student_antisym fuel N (by intro e; linarith : β ≠ 1 / 2)]
+  linarith
+
+/-- non-vacuity and reach: for N = 3 every `α ≤ 1/24` is in the tail branch — `Student(·, 3)` is strictly decreasing on
+    (0, 1/24] (and increasing-mirrored on [23/24, 1)); instance α = 0.005 < β = 0.025 -/
+theorem C17_student_mono_N3 (fuel : ℕ) {α β : ℝ} (h0 : 0 < α) (hab : α < β) (hb : β ≤ 1 / 24) :
+    Gen.Statan.Student fuel β 3 < Gen.Statan.Student fuel α 3 ∧ 0 < Gen.Statan.Student fuel β 3 := by
+  have h := C17_student_mono_hill_tail fuel (N := 3) (by norm_num) (by norm_num) h0 hab (by linarith)
+    (hillY_tail_N3 (by linarith) (by linarith))
+  exact ⟨h.1, h.2.1⟩
+
+example : (0 : ℝ) < 0.005 ∧ (0.005 : ℝ) < 0.025 ∧ (0.025 : ℝ) ≤ 1 / 24 := by norm_num
 
 end Gama.Props.C17
